@@ -96,6 +96,7 @@ func (c ListCase) Post124() bool {
 
 var dirPool = []string{"", "", "", "a/", "a/b/", "a/b/c/", "vendor/", "vendor/x/", "vendor/x/y/", "pkg/vendor/", "pkg/vendor/z/", "pkg/vendor/z/w/", "vendor/vendor/", "sub/", "sub/deep/", "sub/vendor/", "A/", "a/B/", "Sub/", "é/", "ﬀ/", "ff/", "K/", "k/", "\u212a/", "\u212a/sub/", "\u017f/", "s/", "\u212b/", "\u00e5/", "a/\u212a/", "a/k/", "internal/", ".git/", "cmd/tool/", "testdata/", "con/", "a.b/"}
 var filePool = []string{"x.go", "y.go", "go.mod", "go.mod", "GO.MOD", "Go.Mod", "go.MOD", "LICENSE", "license", "License", "README.md", "modules.txt", "vendor.go", "vendor", ".hg_archival.txt", "aux.txt", "NUL", "com1.go", "a~1", "é.go", "É.go", "X.GO", "x.GO", "ß", "ss", "\u212a", "k", "K", "\u017f", "s", "\u212b", "\u00e5", "\u1e9e", "straße.go", "STRASSE.go", "σ.txt", "ς.txt", "Σ.txt", "a b.txt", "a\tb", "trailing.", ".hidden", "..", "...", "f|g", "f?g", "f*g", "weird[1].go", "go.mod.bak", "x", "z"}
+
 // The "mild" pools only contain names that are valid and do not collide with each other under
 // case folding, so that lists built from them usually pass the check while still exercising
 // the omission rules (vendor variants, nested modules, VCS files, irregular modes).
